@@ -13,7 +13,8 @@ RULE = ('In-domain lattice structures (free space, ideal ground, generic and axi
         'fixed greedy strength-2 covering array for k=3,4) x scale factors {-1, j, 2.5e-3*exp(1.1j)}. Oracles: I(aV)=aI(V), '
         'Z and dBi unchanged; I(V1..Vk) = sum of single-source responses (others at 0 V, and others absent); '
         'Excitation.impedance/power recomputed from the voltages applied and Mininec.current; SOURCE DATA block parsed. '
-        'State = (structure, positions, voltages); transition = one solve. Non-trivial: k>=2 or a junction/grounded feed.')
+        'The scaled solve is also repeated on the SAME object; every 8th (thorough: every) structure additionally carries a lumped '
+        'and an RLC load. State = (structure, positions, voltages); transition = one solve. Non-trivial: k>=2 or a junction/grounded feed.')
 ASSUMPTIONS = ['sources addressed by absolute pulse number taken from the built pulse table']
 VOLT = [1 + 0j, -1 + 0j, 1j, 0.3 - 2j, 1e-3 + 0j, 1e3 + 0j]
 ALPHA = [-1 + 0j, 1j, 2.5e-3 * cmath.exp(1.1j)]
@@ -60,6 +61,9 @@ def cases(tier, seed):
             if tier == 'quick' and i % 4 != 1:
                 continue
             yield c
+            # the same structure carrying a lumped impedance and a series RLC load (single feeds and pairs)
+            if tier != 'quick' or i % 8 == 1:
+                yield dict(c, loaded=True)
 
 
 def solve(case, srcs):
@@ -79,8 +83,11 @@ def evaluate(c):
     special = [p for p in special if 0 <= p < N]
     sets = [(p,) for p in range(N)]
     sets += list(itertools.combinations(special[:4], 2))
-    sets += list(itertools.combinations(special[:4], 3))[:2]
-    sets += list(itertools.combinations(special[:4], 4))[:1]
+    if c.get('loaded'):
+        case['loads'] = [dict(pulse=N // 2, z=[30., 40.]), dict(pulse=0, kind='rlc', rlc=[5., 2e-6, 30e-12])]
+    else:
+        sets += list(itertools.combinations(special[:4], 3))[:2]
+        sets += list(itertools.combinations(special[:4], 4))[:1]
     viol, worst, ns, nt = [], 0.0, 0, 0
     canon, nontriv = [], []
     single = {}
@@ -164,7 +171,17 @@ def evaluate(c):
                                 chk('REPORT-' + key, abs(pa - pb), 5e-6 * abs(pb) + 1e-300, 'printed %s (%s) %r vs %r' % (key, part, pa, pb))
                         pw = 0.5 * (v * np.conj(cur)).real
                         chk('REPORT-power', abs(b['power'] - pw), 5e-6 * abs(pw) + 1e-30, 'printed power %g vs %g' % (b['power'], pw))
-            canon.append('%s|%s' % (ps, vec))
+            # the same object solved again with all voltages multiplied by j (after everything else that reads m)
+            if vi % 3 == 0:
+                for sx in m.sources:
+                    sx.voltage = sx.voltage * 1j
+                m.compute()
+                ns += 1
+                chk('SCALE-I-sameobject-' + tag, np.abs(m.current - 1j * I).max() / imax, 1e-9, 'second compute() on the same object with V*j: I != j I(V), pulses %s' % (ps,))
+                zs = np.array([sx.impedance for sx in m.sources])
+                zr = np.array([v / I[p] for p, v in zip(ps, V)])
+                chk('SCALE-Z-sameobject-' + tag, np.max(np.abs(zs - zr) / np.abs(zr)), 1e-9, 'second compute() on the same object: Z changes')
+            canon.append('%s%s|%s' % ('L' if c.get('loaded') else '', ps, vec))
             nontriv.append(k >= 2 or ps[0] in junc or ps[0] in gnd)
     # two sources registered on the same pulse: the statement's formulation (others held at 0 V) and scaling
     if N >= 2:
